@@ -496,6 +496,19 @@ def rule_to_timings(chk: Check, model: Model, rid: str):
                   and isinstance(n.value, ast.Subscript)]
         tgt = [du.get(id(n.targets[0].slice), set()) for n in copies]
         src = [du.get(id(n.value.slice), set()) for n in copies]
+        if not (copies and ra and rb) and len(keys) == 1 and len(srcidx) == 1:
+            # the appends and the copies live in different functions (to_timings split into helpers): the def-use pass of one function
+            # cannot connect them; the containers are then followed through the evaluated terms by their constant keys
+            k, s_ = next(iter(keys)), next(iter(srcidx))
+            ka = {x[1] for x in T.walk(sl[0].recv) if x[0] == "const" and isinstance(x[1], str)}
+            kb = {x[1] for x in T.walk(fl[0].recv) if x[0] == "const" and isinstance(x[1], str)}
+            in_k = {x[1] for x in T.walk(k) if x[0] == "const" and isinstance(x[1], str)} & (ka | kb)
+            in_s = {x[1] for x in T.walk(s_) if x[0] == "const" and isinstance(x[1], str)} & (ka | kb)
+            okp = bool(ka) and bool(kb) and not (ka & kb) and in_k == ka and in_s == kb
+            chk.add(rid, "target index from the slot list, source index from the fill list", okp, "target must be indexed by (episode, partition), source by (episode, seq)", chk.loc(fi))
+            chk.add(rid, "index lists not mixed up", okp, "the slot index must come from the (episode, partition) list only and the fill index from the (episode, vertex seq) list only", chk.loc(fi))
+            copies = None
+    if len(sl) == 1 and len(fl) == 1 and copies is not None:
         chk.add(rid, "target index from the slot list, source index from the fill list", bool(copies) and bool(ra) and bool(rb) and ra != rb and all(t == ra for t in tgt) and all(x == rb for x in src),
                 f"target must be indexed by (episode, partition), source by (episode, seq); the copies index their targets with {sorted(map(str, set().union(*tgt) if tgt else []))} and their sources with "
                 f"{sorted(map(str, set().union(*src) if src else []))}, the (eps, partition) list is {sorted(map(str, ra))}, the (eps, seq) list is {sorted(map(str, rb))}", chk.loc(fi))
